@@ -1028,4 +1028,221 @@ theorem Routed.enteredCount_eq {c : Ctx N} {E : Nat → Nat} (h : Routed c E) : 
 
 end checker
 
+/-! ## 8. Exports for the hazard proofs -/
+
+section exports
+omit [LT N] [DecidableRel (α := N) (· < ·)]
+
+namespace Routes
+
+theorem eq_of_mem_of_length_le_one {α : Type} {l : List α} (h : l.length ≤ 1) {a b : α} (ha : a ∈ l) (hb : b ∈ l) :
+    a = b := by
+  match l, h, ha, hb with
+  | [x], _, ha, hb =>
+    simp only [List.mem_singleton] at ha hb
+    rw [ha, hb]
+  | _ :: _ :: _, h, _, _ => simp at h
+
+theorem adjacent_map {α β : Type} (f : α → β) (R : β → β → Prop) :
+    ∀ {l : List α}, Adjacent R (l.map f) ↔ Adjacent (fun a b => R (f a) (f b)) l
+  | [] => Iff.rfl
+  | [_] => Iff.rfl
+  | a :: b :: rest => by
+    have ih := adjacent_map f R (l := b :: rest)
+    simp only [List.map_cons] at ih
+    simp only [List.map_cons, Adjacent, ih]
+
+/-- a chain of a transitive relation is pairwise related -/
+theorem pairwise_of_adjacent_trans {α : Type} {R : α → α → Prop} (htrans : ∀ a b c, R a b → R b c → R a c) :
+    ∀ {l : List α}, Adjacent R l → l.Pairwise R
+  | [], _ => List.Pairwise.nil
+  | [_], _ => by simp
+  | a :: b :: rest, h => by
+    have ih := pairwise_of_adjacent_trans htrans (l := b :: rest) h.2
+    refine List.pairwise_cons.2 ⟨?_, ih⟩
+    intro y hy
+    rcases List.mem_cons.1 hy with e | e
+    · rw [e]; exact h.1
+    · exact htrans a b y h.1 ((List.pairwise_cons.1 ih).1 y e)
+
+theorem pairwise_mem {α : Type} {R : α → α → Prop} {l : List α} (h : l.Pairwise R) {a b : α} (ha : a ∈ l)
+    (hb : b ∈ l) : a = b ∨ R a b ∨ R b a := by
+  induction l with
+  | nil => cases ha
+  | cons x l ih =>
+    obtain ⟨h1, h2⟩ := List.pairwise_cons.1 h
+    rcases List.mem_cons.1 ha with ea | ea <;> rcases List.mem_cons.1 hb with eb | eb
+    · exact Or.inl (ea.trans eb.symm)
+    · subst ea; exact Or.inr (Or.inl (h1 b eb))
+    · subst eb; exact Or.inr (Or.inr (h1 a ea))
+    · exact ih h2 ea eb
+
+end Routes
+
+/-- position of a unit in the processing order: destinations by their stored index (sinks first), all other units
+(the pure input ports) last. Every declared connection `q → n` goes from a higher to a lower rank. -/
+def unitRank (p : Proc N) (n : N) : Nat := (destPos p n).getD p.dests.length
+
+theorem unitRank_lt_of_pred {p : Proc N} (ho : orderOK p = true) {n q : N} (hq : q ∈ predsOf p n) :
+    unitRank p n < unitRank p q := by
+  unfold predsOf at hq
+  cases hf : p.dests.find? (fun d => decide (d.model.name = n)) with
+  | none => rw [hf] at hq; cases hq
+  | some d =>
+    rw [hf] at hq
+    have hd := List.mem_of_find?_eq_some hf
+    have hdn : d.model.name = n := by simpa using List.find?_some hf
+    obtain ⟨_, _, hpos⟩ := orderOK_pred ho hd hq
+    obtain ⟨k, hk⟩ := destPos_isSome_of_mem hd
+    have hklt : k < p.dests.length := by
+      unfold destPos at hk
+      obtain ⟨hlt, _⟩ := List.findIdx?_eq_some_iff_getElem.1 hk
+      exact hlt
+    rw [hdn] at hk
+    unfold unitRank
+    rw [hk]
+    cases hkq : destPos p q with
+    | none => simpa using hklt
+    | some kq =>
+      obtain ⟨kd, hkd, hlt⟩ := hpos kq hkq
+      rw [hdn, hk] at hkd
+      cases hkd
+      simpa using hlt
+
+/-- order of two positions of one instruction: later in time, not higher in rank, and if the rank is the same then
+the unit is the same and a label other than `D` is followed by `S` only -/
+def PosOrder (p : Proc N) (a b : Nat × UnitM N × Stall) : Prop :=
+  a.1 < b.1 ∧ unitRank p b.2.1.name ≤ unitRank p a.2.1.name ∧
+    (unitRank p b.2.1.name = unitRank p a.2.1.name → a.2.1 = b.2.1 ∧ (a.2.2 ≠ .D → b.2.2 = .S))
+
+theorem PosOrder.trans {p : Proc N} {a b c : Nat × UnitM N × Stall} (h1 : PosOrder p a b) (h2 : PosOrder p b c) :
+    PosOrder p a c := by
+  obtain ⟨t1, r1, e1⟩ := h1
+  obtain ⟨t2, r2, e2⟩ := h2
+  refine ⟨by omega, by omega, ?_⟩
+  intro hr
+  obtain ⟨u1, l1⟩ := e1 (by omega)
+  obtain ⟨u2, l2⟩ := e2 (by omega)
+  refine ⟨u1.trans u2, ?_⟩
+  intro ha
+  have hb := l1 ha
+  exact l2 (by rw [hb]; simp)
+
+theorem PosOrder.of_step {p : Proc N} {prog : List (Instr N)} {i : Nat} (ho : orderOK p = true)
+    {a b : Nat × UnitM N × Stall} (ht : b.1 = a.1 + 1) (h : PosStep p prog i a b) : PosOrder p a b := by
+  rcases h with ⟨e, hS⟩ | ⟨_, hp, _, _, _⟩
+  · refine ⟨by omega, by rw [e]; exact Nat.le_refl _, fun _ => ⟨e, fun ha => hS.2 ha⟩⟩
+  · have := unitRank_lt_of_pred ho hp
+    exact ⟨by omega, by omega, fun e => by omega⟩
+
+variable {c : Ctx N} {E : Nat → Nat}
+
+/-- **One unit per row**: two positions of an instruction in the same cycle coincide -/
+theorem Routed.positions_unique_row (h : Routed c E) {i : Nat} {x y : Nat × UnitM N × Stall}
+    (hx : x ∈ c.positions i) (hy : y ∈ c.positions i) (hxy : x.1 = y.1) : x = y := by
+  obtain ⟨h1, h2, h3⟩ := mem_positions.1 hx
+  obtain ⟨k1, k2, k3⟩ := mem_positions.1 hy
+  exact eq_of_mem_of_length_le_one (rowPos_length_le_one h.names (h.rowND h1) i)
+    (mem_rowPos.2 ⟨rfl, h2, h3⟩) (mem_rowPos.2 ⟨hxy.symm, k2, by rw [hxy]; exact k3⟩)
+
+/-- the positions of an instruction are pairwise ordered by `PosOrder` -/
+theorem Routed.positions_pairwise (h : Routed c E) (i : Nat) : (c.positions i).Pairwise (PosOrder c.p) := by
+  by_cases hi : i < E c.T
+  · apply pairwise_of_adjacent_trans (R := PosOrder c.p) (fun _ _ _ h1 h2 => PosOrder.trans h1 h2)
+    exact (h.routeOf hi).chain.imp (fun a b hab => PosOrder.of_step h.order hab.1 hab.2)
+  · rw [h.positions_eq_nil (by omega)]; exact List.Pairwise.nil
+
+/-- **No unit is visited twice**: between two positions in the same unit the instruction is in that unit -/
+theorem Routed.no_revisit (h : Routed c E) {i : Nat} {a x b : Nat × UnitM N × Stall} (ha : a ∈ c.positions i)
+    (hx : x ∈ c.positions i) (hb : b ∈ c.positions i) (hab : a.2.1.name = b.2.1.name) (h1 : a.1 ≤ x.1)
+    (h2 : x.1 ≤ b.1) : x.2.1 = a.2.1 := by
+  have hp := h.positions_pairwise i
+  rcases pairwise_mem hp ha hx with e | hax | hxa
+  · rw [e]
+  · rcases pairwise_mem hp hx hb with e | hxb | hbx
+    · rw [e]
+      rcases pairwise_mem hp ha hb with e' | hab' | hba'
+      · rw [e']
+      · exact (hab'.2.2 (by rw [hab])).1.symm
+      · exact (hba'.2.2 (by rw [hab])).1
+    · have r1 := hax.2.1
+      have r2 := hxb.2.1
+      rw [← hab] at r2
+      exact (hax.2.2 (by omega)).1.symm
+    · have := hbx.1; omega
+  · have := hxa.1; omega
+
+/-- **Label `U` at most once per (instruction, unit)**: two positions of an instruction in the same unit that are
+both labelled `U` coincide -/
+theorem Routed.U_once (h : Routed c E) {i : Nat} {a b : Nat × UnitM N × Stall} (ha : a ∈ c.positions i)
+    (hb : b ∈ c.positions i) (hab : a.2.1.name = b.2.1.name) (hau : a.2.2 = .U) (hbu : b.2.2 = .U) : a = b := by
+  rcases pairwise_mem (h.positions_pairwise i) ha hb with e | h1 | h1
+  · exact e
+  · have := (h1.2.2 (by rw [hab])).2 (by rw [hau]; simp)
+    rw [hbu] at this; cases this
+  · have := (h1.2.2 (by rw [hab])).2 (by rw [hbu]; simp)
+    rw [hau] at this; cases this
+
+/-- the units instruction `i` has visited up to cycle `t`, one entry per cycle (so a stay repeats its unit) -/
+def Spec.Ctx.visited (c : Ctx N) (i t : Nat) : List (UnitM N) :=
+  ((c.positions i).takeWhile (fun x => decide (x.1 ≤ t))).map (·.2.1)
+
+/-- **The units an instruction has visited up to cycle `t` form a walk along declared connections that starts at an
+input-boundary port; all of them are units of the processor supporting its capability.** -/
+theorem Routed.visited_walk (h : Routed c E) (i t : Nat) :
+    (∀ u ∈ c.visited i t, u ∈ c.p.allUnits ∧ capIn c.prog i u.caps = true) ∧
+    (∀ u, (c.visited i t).head? = some u → u ∈ c.p.inBoundary) ∧
+    Adjacent (fun a b : UnitM N => a = b ∨ a.name ∈ predsOf c.p b.name) (c.visited i t) := by
+  unfold Ctx.visited
+  by_cases hi : i < E c.T
+  · have hr := h.routeOf hi
+    have hsplit := List.takeWhile_append_dropWhile (p := fun x : Nat × UnitM N × Stall => decide (x.1 ≤ t))
+      (l := c.positions i)
+    have hsub : ∀ x ∈ (c.positions i).takeWhile (fun x => decide (x.1 ≤ t)), x ∈ c.positions i :=
+      fun x hx => (List.takeWhile_sublist _).subset hx
+    have hcap : ∀ x ∈ c.positions i, capIn c.prog i x.2.1.caps = true := by
+      refine forall_of_adjacent (P := fun x => capIn c.prog i x.2.1.caps = true) ?_ hr.chain
+        (fun x hx => (hr.first x hx).2.2.1)
+      intro a b hab ha
+      rcases hab.2 with ⟨e, _⟩ | ⟨_, _, _, _, hc⟩
+      · rw [← e]; exact ha
+      · exact hc
+    refine ⟨?_, ?_, ?_⟩
+    · intro u hu
+      obtain ⟨x, hx, rfl⟩ := List.mem_map.1 hu
+      exact ⟨(hr.mem x (hsub x hx)).2, hcap x (hsub x hx)⟩
+    · intro u hu
+      cases hp : c.positions i with
+      | nil => rw [hp] at hu; simp at hu
+      | cons x l =>
+        rw [hp, List.takeWhile_cons] at hu
+        split at hu
+        · simp only [List.map_cons, List.head?_cons, Option.some.injEq] at hu
+          rw [← hu]; exact (hr.first x (by rw [hp]; rfl)).1
+        · simp at hu
+    · rw [adjacent_map]
+      have hch : Adjacent (fun a b => b.1 = a.1 + 1 ∧ PosStep c.p c.prog i a b)
+          ((c.positions i).takeWhile (fun x => decide (x.1 ≤ t))) := by
+        have := hr.chain
+        rw [← hsplit] at this
+        exact this.of_append_left
+      refine hch.imp ?_
+      intro a b hab
+      rcases hab.2 with ⟨e, _⟩ | ⟨_, hp, _, _, _⟩
+      · exact Or.inl e
+      · exact Or.inr hp
+  · rw [h.positions_eq_nil (by omega)]
+    simp [Adjacent]
+
+end exports
+
+/-- `visited_walk` for the diagrams of `simulate` -/
+theorem visited_walk {p : Proc N} {prog : List (Instr N)} (hwf : wfProc p = true) {tbl : List (Util N)}
+    {stalled : Bool} (h : Diagram p prog tbl stalled) (i t : Nat) :
+    (∀ u ∈ (ctx p prog tbl stalled).visited i t, u ∈ p.allUnits ∧ capIn prog i u.caps = true) ∧
+    (∀ u, ((ctx p prog tbl stalled).visited i t).head? = some u → u ∈ p.inBoundary) ∧
+    Adjacent (fun a b : UnitM N => a = b ∨ a.name ∈ predsOf p b.name) ((ctx p prog tbl stalled).visited i t) := by
+  obtain ⟨E, hE⟩ := Diagram_routed hwf h
+  exact hE.visited_walk i t
+
 end ProcSim
